@@ -12,6 +12,11 @@ Import ListNotations.
 Section Legacy.
 Context {T : Type}.
 Variable cast : dt -> dt -> T -> T.
+(* variant switch for the open finding pspace-array-dtype-argument: [false] =
+   ProductSpaceElement.__array__ takes no dtype (as found: TypeError when a
+   product-space element reaches a tensor leaf), [true] = it does (repaired:
+   the stacked array then makes the result grow, ValueError) *)
+Variable pv : bool.
 
 Inductive ptree := PLeaf (d : dt) (data : list T) | PNode (parts : list ptree).
 
@@ -101,6 +106,128 @@ Fixpoint legacy2_elem_spec (t u : ptree) : ptree :=
                 | _, _ => []
                 end) ts us)
   | _, _ => t
+  end.
+
+(* ---------------- binary legacy ufuncs with ANY second operand ----------------
+   wrap_ufunc_productspace, n_in = 2:
+       if x2 in self.elem.space:   pair the components of self and x2
+       else:                       hand the SAME x2 to every component  ("recursive broadcasting")
+   and at a tensor leaf the NumPy call with whatever x2 is.  Leaves are 1-d here
+   (shape = [length]).  [with_out]: out= given as an element of the space (the
+   leaves of out are written, same_kind casting enforced); otherwise the results
+   are converted into the space by space.element. *)
+Inductive arg2 :=
+  | A2Tree (u : ptree)                           (* an element: tensor leaf or product-space element *)
+  | A2Scal (c : T)
+  | A2Arr (shape : list nat) (data : list T).    (* ndarray or (nested) list *)
+
+(* x2 in space: x2 is an element of exactly this space (same structure, leaf sizes, dtypes) *)
+Fixpoint sig_eqb (t u : ptree) : bool :=
+  match t, u with
+  | PLeaf d x, PLeaf e y => dt_eqb d e && (length x =? length y)%nat
+  | PNode ts, PNode us =>
+      (fix go (ts us : list ptree) : bool :=
+         match ts, us with
+         | [], [] => true
+         | a :: ts', b :: us' => sig_eqb a b && go ts' us'
+         | _, _ => false
+         end) ts us
+  | _, _ => false
+  end.
+(* THE DECISION of the wrapper: pair the components iff x2 is in the space of self *)
+Definition pair_decision (t : ptree) (a : arg2) : bool :=
+  match a with A2Tree u => sig_eqb t u | _ => false end.
+
+(* the second operand seen from a tensor leaf of length n, broadcast to length n *)
+Definition opvec (n : nat) (a : arg2) : res (list T) :=
+  let fit (y : list T) :=
+    if (length y =? n)%nat then Ok y
+    else match y with [c] => Ok (repeat c n) | _ => Err EValue end in
+  match a with
+  | A2Scal c => Ok (repeat c n)
+  | A2Tree (PLeaf _ y) => fit y
+  | A2Tree (PNode _) => Err (if pv then EValue else EType)
+  | A2Arr [] [c] => Ok (repeat c n)
+  | A2Arr [k] y => if (k =? length y)%nat then fit y else Err EValue
+  | A2Arr _ _ => Err EValue             (* more axes than the leaf: result would grow / cannot broadcast *)
+  end.
+(* with out= NumPy checks the same_kind cast of the result into out first, and
+   reports an operand it cannot broadcast into out as ValueError *)
+Definition leaf2 (with_out : bool) (d : dt) (x : list T) (a : arg2) : res ptree :=
+  if with_out && negb (can_cast (F2 d) d) then Err EType else
+  match opvec (length x) a with
+  | Err e => Err (if with_out then EValue else e)
+  | Ok ys =>
+      if with_out then Ok (PLeaf d (map (conv (F2 d) d) (map2 (f2 d) x ys)))
+      else Ok (PLeaf (F2 d) (map2 (f2 d) x ys))
+  end.
+
+Fixpoint legacy2 (with_out : bool) (t : ptree) (a : arg2) {struct t} : res ptree :=
+  match t with
+  | PLeaf d x => leaf2 with_out d x a
+  | PNode ts =>
+      let rs :=
+        if pair_decision t a then
+          match a with
+          | A2Tree (PNode us) =>
+              (fix go (ts us : list ptree) : res (list ptree) :=
+                 match ts, us with
+                 | x :: ts', u :: us' =>
+                     match legacy2 with_out x (A2Tree u) with
+                     | Err e => Err e
+                     | Ok r => match go ts' us' with Ok l => Ok (r :: l) | Err e => Err e end
+                     end
+                 | _, _ => Ok []
+                 end) ts us
+          | _ => Err EUnmodelled
+          end
+        else
+          (fix go (ts : list ptree) : res (list ptree) :=
+             match ts with
+             | [] => Ok []
+             | x :: ts' =>
+                 match legacy2 with_out x a with
+                 | Err e => Err e
+                 | Ok r => match go ts' with Ok l => Ok (r :: l) | Err e => Err e end
+                 end
+             end) ts in
+      match rs with
+      | Ok l => Ok (cast_like t (PNode l))
+      | Err e => Err e
+      end
+  end.
+
+(* --- what NumPy broadcasting gives for an operand from an INNER power space --- *)
+(* the stacked array of an element, flattened in C order *)
+Fixpoint flat (t : ptree) : list T :=
+  match t with
+  | PLeaf _ x => x
+  | PNode ts => (fix go (l : list ptree) : list T :=
+                   match l with [] => [] | a :: l' => flat a ++ go l' end) ts
+  end.
+(* u is an element of the space of t or of one of its (nested) component spaces *)
+Fixpoint inner (t u : ptree) : Prop :=
+  if sig_eqb t u then True
+  else match t with
+       | PLeaf _ _ => False
+       | PNode ts => (fix all (l : list ptree) : Prop :=
+                        match l with [] => True | a :: l' => inner a u /\ all l' end) ts
+       end.
+(* how many copies of u's array tile the array of t *)
+Fixpoint copies (t u : ptree) : nat :=
+  if sig_eqb t u then 1%nat
+  else match t with
+       | PLeaf _ _ => 0%nat
+       | PNode ts => (fix sum (l : list ptree) : nat :=
+                        match l with [] => 0%nat | a :: l' => (copies a u + sum l')%nat end) ts
+       end.
+Fixpoint tile (k : nat) (l : list T) : list T :=
+  match k with O => [] | S k' => l ++ tile k' l end.
+Fixpoint all_dtype (d : dt) (t : ptree) : Prop :=
+  match t with
+  | PLeaf e _ => e = d
+  | PNode ts => (fix all (l : list ptree) : Prop :=
+                   match l with [] => True | a :: l' => all_dtype d a /\ all l' end) ts
   end.
 
 (* ---------------- power-space elements through the NumPy API ----------------
